@@ -451,11 +451,17 @@ class Gen:
         seen_default = False
         kwonly_started = False
         sig = []
+        rebind = []
         for k in range(np_):
             pn = f"p{k}"
             dflt = None
             if seen_default or self.chance(0.35):
                 dflt = self.pick(["0", "1", "5", "-1", "10"])
+                if self.globals and self.chance(0.4):
+                    # a default that is a bare name: bound when the def executes, not when the call is made
+                    dflt = self.pick(list(self.globals))
+                    rebind.append(dflt)
+                    self.features.add("default-param-name")
                 seen_default = True
             kwonly = False
             if kwonly_started or (k == np_ - 1 and np_ > 1 and self.chance(0.2)):
@@ -484,6 +490,9 @@ class Gen:
         self.budget = saved_budget - (6 - max(self.budget, 0))
         self.emit(1, f"return {self.int_expr(env, 1)}")
         self.emit(0, "")
+        for g in rebind:
+            # the name used as a default is rebound after the def: calls that omit the argument still get the old value
+            self.emit(0, f"{g} = {g} + {self.rng.randint(3, 9)}")
         self.funcs = saved_funcs + [FuncInfo(name, params)]
 
     def gen_class(self, base=None):
